@@ -127,11 +127,11 @@ type entry struct {
 	off, n int
 	pure   int
 	// eChunks
-	content  []byte // the file (a sub-slice of big, or small)
-	acc      int    // bytes matched so far
-	chunks   int    // chunk tasks matched so far
-	fileID   uint32
-	slot     int // which file of the using command
+	content []byte // the file (a sub-slice of big, or small)
+	acc     int    // bytes matched so far
+	chunks  int    // chunk tasks matched so far
+	fileID  uint32
+	slot    int // which file of the using command
 	// eUser: parse function checks the body and returns the ids it carries
 	files   int
 	idsFrom func(body []byte) (ids []uint32, ok bool)
@@ -142,9 +142,9 @@ type entry struct {
 func (e *entry) wireLen() int { return len(e.pre) + e.n }
 
 type agentModel struct {
-	q       []*entry
-	ids     []uint32 // file ids bound by the chunk groups preceding the next eUser
-	deliv   int      // tasks matched so far
+	q     []*entry
+	ids   []uint32 // file ids bound by the chunk groups preceding the next eUser
+	deliv int      // tasks matched so far
 }
 
 func (m *agentModel) empty() bool { return len(m.q) == 0 }
